@@ -26,5 +26,7 @@ for k in 1 2 3; do
     echo "check_$Q exit=$rc $(grep -E '^VIOLATION' $S/check_$Q.log | head -1) | $(grep -E "^$Q quick" $S/check_$Q.log)" >> $out
   done
 done
+t=$(python3 -c "import hashlib,os;print(hashlib.sha1(os.path.realpath('$S/repo').encode()).hexdigest()[:8])")
+rm -rf /verif/.build/harness-shadow-$t /verif/.build/harness-target-$t /verif/.build/harness-target-$t-*
 rm -rf $S/repo $S/target
 echo "done $P"
